@@ -7,6 +7,7 @@ package p_lru
 import (
 	"fmt"
 	"math"
+	"runtime"
 	"sort"
 	"strconv"
 	"strings"
@@ -39,7 +40,11 @@ const (
 )
 
 // box is the concrete type behind the values of the iface shape.
-type box struct{ id int }
+// It is 64 bytes: never tiny-allocated, so that a weak pointer to one box says nothing about another (retain.go).
+type box struct {
+	id  int
+	pad [7]uint64
+}
 
 // HugeCaps are the capacities that stand for "unbounded" (math.MaxInt is the usual spelling) or "larger than anything that will
 // ever be inserted". No case can fill such a cache, so it behaves like an unbounded one: nothing is ever evicted. Nothing in the
@@ -122,6 +127,11 @@ type Case struct {
 	Keys      int    `json:"keys"`
 	NoCB      bool   `json:"nocb,omitempty"`      // construct with a nil delete callback
 	NilCreate bool   `json:"nilcreate,omitempty"` // construct with a nil create function (must be refused)
+	// Measure (RunWalk only, ignored by Run): the case carries the RETENTION measurements of retain.go - weak pointers to every value
+	// object (shapes iface and expirable) and to every fresh primary-key slice (shape ecache) handed to the cache, forced garbage
+	// collections with the cache alive at every 1000th call, right after the first Remove of a resident and the first Clear of a
+	// non-empty cache of every 1000 calls, after the epilogue's insertions and after the final Clear: only objects of residents may resolve.
+	Measure bool `json:"measure,omitempty"`
 	Ops       []Op   `json:"ops"`
 	Repeat    int    `json:"repeat,omitempty"`
 	Stride    int    `json:"stride,omitempty"`
@@ -168,6 +178,7 @@ type Info struct {
 	ReentrantWindow      bool // an insertion evicted although the cache was not full when the miss was detected
 	Undetermined         bool // abandoned: outcome not determined by the documentation
 	Diverged             bool // RunWalk only: the functional oracle disagreed (C08's business), case abandoned
+	Retain               RetainInfo // RunWalk with Case.Measure: the retention measurements
 	Walks                int  // VerifWalk calls made
 	Checkpoints          int  // 1000-op checkpoints passed
 	MaxNodes             int  // largest node count seen at a checkpoint
@@ -184,6 +195,7 @@ type del struct {
 type item struct {
 	id      int
 	expired bool
+	pad     [6]uint64 // 64 bytes: never tiny-allocated (retain.go)
 }
 
 var farFuture = time.Date(9000, 1, 1, 0, 0, 0, 0, time.UTC)
@@ -214,6 +226,8 @@ type world struct {
 	bornN   int             // born-expired creations so far
 	bornMax int             // longest run so far
 	bufs    [NBufs][]string // reusable PK buffers (ecache shape)
+	track   *retTracker     // retention measurements (RunWalk with Case.Measure), else nil
+	nPK     int             // fresh PK slices handed out
 }
 
 var bufNames = func() (n [NBufs + 1][3]string) {
@@ -230,6 +244,10 @@ func (w *world) pkFor(key, sel int) []string {
 	pk := pkOf(key, sel%NVariants)
 	b := sel / NVariants
 	if b == 0 {
+		if w.track != nil { // a fresh slice per call: the cache may keep it only as the stored PK of a resident
+			w.nPK++
+			trackPK(w.track, w.nPK, &pk[0])
+		}
 		return pk
 	}
 	if w.bufs[b-1] == nil {
@@ -280,6 +298,7 @@ type sut struct {
 	remove func(key, vr int) bool
 	clear  func() int
 	walk   func() walkRes
+	keep   func() // runtime.KeepAlive of the cache object
 }
 
 func keyName(key int) string { return "k" + strconv.Itoa(key) }
@@ -330,6 +349,7 @@ func build(c Case, w *world) (*sut, error) {
 			remove: func(key, vr int) bool { return ch.Remove(keyName(key)) },
 			clear:  func() int { return ch.Clear() },
 			walk:   walkOf(ch.ECache),
+			keep:   func() { runtime.KeepAlive(ch) },
 		}, nil
 	case ShapeECache:
 		var cf lru.CreatePoolElemF[[]string, int]
@@ -349,6 +369,7 @@ func build(c Case, w *world) (*sut, error) {
 			remove: func(key, sel int) bool { return ch.Remove(w.pkFor(key, sel)) },
 			clear:  func() int { return ch.Clear() },
 			walk:   walkOf(ch),
+			keep:   func() { runtime.KeepAlive(ch) },
 		}, nil
 	case ShapeExpirable:
 		var cf lru.CreatePoolElemF[string, *item]
@@ -359,6 +380,7 @@ func build(c Case, w *world) (*sut, error) {
 					return nil, err
 				}
 				w.lastIt = &item{id: id}
+				trackVal(w.track, id, w.lastIt)
 				if w.born[k] > 0 { // this creation is part of a run of born-expired items ordered for the key
 					w.born[k]--
 					w.lastIt.expired = true
@@ -399,6 +421,7 @@ func build(c Case, w *world) (*sut, error) {
 			remove: func(key, vr int) bool { return ch.Remove(keyName(key)) },
 			clear:  func() int { return ch.Clear() },
 			walk:   walkOf(ch.Cache.ECache),
+			keep:   func() { runtime.KeepAlive(ch) },
 		}, nil
 	case ShapeIface:
 		// unbox names a value of the cache: a non-nil box by its id; a nil value carries no id, it is resolved through the key
@@ -431,7 +454,9 @@ func build(c Case, w *world) (*sut, error) {
 					w.noteNil(k, id)
 					return (*box)(nil), nil
 				}
-				return &box{id: id}, nil
+				b := &box{id: id}
+				trackVal(w.track, id, b)
+				return b, nil
 			}
 		}
 		var df lru.OnDeleteElemF[string, any]
@@ -457,6 +482,7 @@ func build(c Case, w *world) (*sut, error) {
 			remove: func(key, vr int) bool { return ch.Remove(keyName(key)) },
 			clear:  func() int { return ch.Clear() },
 			walk:   walkOf(ch.ECache),
+			keep:   func() { runtime.KeepAlive(ch) },
 		}, nil
 	}
 	panic("bad shape " + c.Shape)
@@ -489,7 +515,7 @@ func Run(c Case) (info Info, v *vstat.Violation) {
 // the case is marked Diverged and goes on without the reference model, checking the structure only.
 func RunWalk(c Case) (info Info, v *vstat.Violation) {
 	v = vstat.Guard("lru:panic", func() *vstat.Violation { return run(c, true, &info) })
-	if v != nil && !strings.HasPrefix(v.Sig, "lru:walk-") {
+	if v != nil && !strings.HasPrefix(v.Sig, "lru:walk-") && !strings.HasPrefix(v.Sig, "lru:retain-") {
 		info.Diverged = true
 		v = nil
 	}
@@ -505,6 +531,9 @@ func WalkAvailable() bool {
 
 func run(c Case, walk bool, info *Info) *vstat.Violation {
 	w := &world{}
+	if walk && c.Measure {
+		w.track = &retTracker{}
+	}
 	defer func() { info.BornExpired, info.BornMaxRun, info.BornRunOverCalls = w.bornN, w.bornMax, w.bornMax >= 3 }()
 	s, err := build(c, w)
 	if c.Cap < 1 || c.NilCreate {
@@ -701,6 +730,55 @@ func run(c Case, walk bool, info *Info) *vstat.Violation {
 		}
 		return nil
 	}
+	blind := false
+	// measure: the retention oracle (retain.go). Everything the harness itself still knows of entries that have left is wiped first:
+	// the tails of the model slices, the copy made for the messages, the latest item.
+	measure := func(when string, done int) *vstat.Violation {
+		if w.track == nil || blind {
+			return nil
+		}
+		clear(m[len(m):cap(m)])
+		clear(top[:cap(top)])
+		top = top[:0]
+		w.lastIt = nil
+		res := map[int]bool{}
+		pkBound := -1
+		if c.Shape == ShapeECache {
+			pkBound = 0
+		}
+		for _, e := range m {
+			if (c.Shape == ShapeIface && e.kind == KindValue) || c.Shape == ShapeExpirable {
+				res[e.val] = true
+			}
+			if c.Shape == ShapeECache && e.sel/NVariants == 0 {
+				pkBound++
+			}
+		}
+		ri := &info.Retain
+		switch when {
+		case "remove":
+			ri.AfterRemove = true
+		case "clear":
+			ri.AfterClear = true
+		case "epilogue":
+			ri.AfterEpilogue = true
+		case "final":
+			ri.AfterFinal = true
+		}
+		if info.Evictions >= 100 {
+			ri.AfterEvictions100 = true
+		}
+		nres := len(m)
+		return w.track.measure(ri, len(res), func(id int) bool { return res[id] }, pkBound, s.keep, func() string {
+			at := map[string]string{"remove": "right after a Remove of a resident entry", "clear": "right after a Clear of a non-empty cache", "checkpoint": "at a checkpoint",
+				"epilogue": "after the epilogue's insertions of fresh keys", "final": "after the final Clear"}[when]
+			cb := "with a delete callback"
+			if c.NoCB {
+				cb = "WITHOUT a delete callback"
+			}
+			return fmt.Sprintf("shape=%s cap=%d, cache built %s, %d calls made, %s: %d entries resident (reference model)", c.Shape, c.Cap, cb, done, at, nres)
+		})
+	}
 
 	// insert does the model side of a successful creation and returns the expected delete callbacks.
 	delOf := func(e entry) del { return del{e.pk, e.val, e.kind} }
@@ -768,7 +846,6 @@ func run(c Case, walk bool, info *Info) *vstat.Violation {
 	var pendingV *vstat.Violation // first violation found inside a nested call
 	pendingStop := false          // a nested call ended in an undetermined state
 	shift := 0                    // key shift of the current repetition
-	blind := false
 
 	// getOrCreate executes one GetOrCreate against both sides. prog is the program the create function
 	// runs if this call reaches it; stack holds the keys whose creation is in progress around this call.
@@ -1154,9 +1231,11 @@ func run(c Case, walk bool, info *Info) *vstat.Violation {
 		return v
 	}
 	g := 0
+	pendRemove, pendClear := true, true // retention: measure right after the next Remove of a resident / Clear of a non-empty cache
 	for r := 0; r < max(1, c.Repeat); r++ {
 		for j := range c.Ops {
 			op := c.Ops[j]
+			rh, cn := info.RemoveHit, info.ClearNonEmpty
 			shift = r * c.Stride
 			key := ((op.Key+shift)%nk + nk) % nk
 			vr := 0
@@ -1186,8 +1265,23 @@ func run(c Case, walk bool, info *Info) *vstat.Violation {
 				return v
 			}
 			g++
-			if g%1000 == 0 {
+			switch {
+			case g%1000 == 0:
 				if v := checkpoint(g); v != nil {
+					return v
+				}
+				if v := measure("checkpoint", g); v != nil {
+					return v
+				}
+				pendRemove, pendClear = true, true
+			case pendClear && op.K == "c" && info.ClearNonEmpty > cn:
+				pendClear = false
+				if v := measure("clear", g); v != nil {
+					return v
+				}
+			case pendRemove && op.K == "r" && info.RemoveHit > rh:
+				pendRemove = false
+				if v := measure("remove", g); v != nil {
 					return v
 				}
 			}
@@ -1231,6 +1325,9 @@ func run(c Case, walk bool, info *Info) *vstat.Violation {
 			return v
 		}
 	}
+	if v := measure("epilogue", g); v != nil {
+		return v
+	}
 	// epilogue 2: final Clear, then every created value has been deleted exactly once
 	if blind {
 		begin(func() string {
@@ -1253,6 +1350,9 @@ func run(c Case, walk bool, info *Info) *vstat.Violation {
 		return goBlind(v)
 	}
 	if v := structural(); v != nil {
+		return v
+	}
+	if v := measure("final", g); v != nil {
 		return v
 	}
 	if !c.NoCB {
@@ -1369,6 +1469,9 @@ func (c Case) Hash() uint64 {
 	if c.NilCreate {
 		b |= 2
 	}
+	if c.Measure {
+		b |= 4
+	}
 	mix(b)
 	mix(uint64(int64(c.Repeat)))
 	mix(uint64(int64(c.Stride)))
@@ -1464,6 +1567,7 @@ func (i Info) Classes(c Case) []string {
 	add(i.ReentrantWindow, "reentrant_cache_filled_between_miss_and_insertion")
 	add(i.Undetermined, "abandoned_undetermined")
 	add(i.Diverged, "abandoned_functional_divergence")
+	cl = append(cl, i.Retain.Classes(c.NoCB)...)
 	n := c.Len()
 	switch {
 	case n >= 100000:
